@@ -1,37 +1,55 @@
-"""Translator 3: small pure Python functions -> lean/SqliteDissect/Generated/PyFun.lean
+"""Translator 3: small pure Python functions and the header constructors -> lean/SqliteDissect/Generated/PyFun.lean,
+lean/SqliteDissect/Generated/PyHeader.lean
 
-The functions at the bottom of the parsers (varint codec, serial-type sizes, the local-payload arithmetic of the
-three payload-bearing cell constructors, the overflow closed form, the per-column regex table) are re-translated
-from the *current* source on every run.  `Properties/GenFun.lean` proves each generated function equal to the
-hand-written model function the property theorems are about, so a semantic change of the source breaks a proof
+The functions at the bottom of the parsers (varint codec, serial-type sizes and record values, the local-payload
+arithmetic of the three payload-bearing cell constructors, the overflow closed form, the per-column regex table, the
+body-size scan of the carver) and the constructors of the four header classes are re-translated from the *current*
+source on every run.  `Properties/GenFun.lean` / `Properties/GenHeader.lean` prove each generated function equal to
+the hand-written model function the property theorems are about, so a semantic change of the source breaks a proof
 obligation on the next run.
 
-Subset (whitelist).  Statements: assignment to a name, augmented assignment, if/elif/else, `while` (fuelled),
-`for v in range(..)`, break, continue, return, raise of a project exception class / ValueError / TypeError, pass,
-`bytearray.insert(0, e)`; logging calls, docstrings and assignments of message strings / `.format(..)` are dropped as
-effect-free.  Expressions: integer literals, names, imported integer constants, + - * // % / (float as exact
-fraction, only under int()/return), << >> & |, unary -, comparisons (chains), and/or/not, conditional expression,
-tuples of those in `return`, `ord(b[lo:hi])`, `len(..)`, `int(..)`, byte string constants, `bytearray()`,
-`bytearray(b"..")`, `b[:-1]`, `b[-1]`, `pack("B", e)`, `unhexlify(f"..{i}")`.  Anything else raises `Unsupported`
-with the source line: the generated file then contains a deliberately failing declaration for that function and
-the proof stage is red ("generated model could not be produced"), never a stale model.
+Subset (whitelist).  Statements: assignment to a name or to a tuple of names, augmented assignment, if/elif/else,
+`while` (fuelled), `for v in range(..)`, break, continue, return, raise of a project exception class / a builtin
+exception class, pass, `bytearray.insert(0, e)`, `try: .. except X: <logging>; raise` (the handlers change nothing);
+logging calls, `warnings.warn`, docstrings, `logger = getLogger(..)` and assignments of message strings / f-strings /
+`.format(..)` are dropped as effect-free.  Expressions: integer literals, None, names, imported integer / byte-string /
+integer-list constants, + - * // % / (float as exact fraction, only under int()/return), << >> & |, unary -,
+comparisons (chains; == / != also of byte strings), `in` / `not in` a literal list or a constant list, and/or/not,
+conditional expression, tuples of those in `return`, `ord(b[lo:hi])`, `b[lo:hi]` of a byte buffer, `len(..)`,
+`int(..)`, byte string constants and `+` on them, `bytearray()`, `bytearray(b"..")`, `b[:-1]`, `b[-1]`, `pack("B", e)`,
+`unpack(">b|B|h|H|i|I|q|Q|d", data)[0]`, `unhexlify(f"..{i}")`, `get_md5_hash(data)` (identity),
+`compile(C).match(hexlify(data).decode())` for a constant C of the form `^0{n}$`, and calls of functions translated
+earlier (KNOWN_CALLS).  Anything else raises `Unsupported` with the source line: the generated file then contains a
+deliberately failing declaration for that function and the proof stage is red ("generated model could not be
+produced"), never a stale model.
 
 Shape of the output.  One Lean `def` per Python function, in `do` notation over `Py = Except PyErr`; a Python
-variable is a (shadowed) `let`; an `if` none of whose branches raises/returns/breaks and whose branches are pure is
-a joined `let x := if c then .. else ..`, any other `if` gets the rest of the block inlined into its branches.
-A loop becomes an auxiliary structurally recursive function `<fn>_loop<k>` over a fuel argument whose other
-arguments are the variables the body reads and (after them) the loop variable and the variables the body assigns
-that exist before the loop; it returns their final values.  `for v in range(a, b)` passes the exact fuel
-`(b - a).toNat`.  A `while` loop has no bound the translator could know: the generated function takes an extra first
-argument `fuel : Nat`, hands it to every `while` loop, and running out of fuel is `.error .outsideModel`; the equality
-theorems quantify over every fuel above an explicit bound.
+variable is a (shadowed) `let`.  An `if` whose branches are pure and raise nothing is a joined
+`let x := if c then .. else ..` (dropped altogether when nothing it assigns survives it: only logging inside).  An `if`
+of which at most one branch completes normally gets the rest of the block inlined into that branch.  An `if` with two
+or more normally completing branches that is left only by `raise` and is followed by more than a `return` becomes
+`let vars <- (show Py T from do <the if, every normal end yielding vars>)`; every other `if` gets the rest of the
+block inlined into its branches.  A loop becomes an auxiliary structurally recursive function `<fn>_loop<k>` over a
+fuel argument whose other arguments are the variables the body reads and (after them) the loop variable and the
+variables the body assigns that exist before the loop; it returns their final values.  `for v in range(a, b)` passes
+the exact fuel `(b - a).toNat`.  A `while` loop has no bound the translator could know: the generated function takes
+an extra first argument `fuel : Nat`, hands it to every `while` loop, and running out of fuel is
+`.error .outsideModel`; the equality theorems quantify over every fuel above an explicit bound.  A declared result
+type (`ret=` in FUNCTIONS) wraps path-dependent values into `PyVal`.
 
 The cell constructors are not functions of their own: from `<Cell>.__init__` the statements between the first
 assignment of `self.has_overflow` and the `if` that assigns `self.bytes_on_first_page` are sliced backwards from
 {self.bytes_on_first_page, self.has_overflow} (plus every `raise` and what its guard reads); statements assigning only
 other targets are dropped after checking that they call nothing but `unpack`/`int`/`.format`.  The slice must read
 exactly `self._page_size` and `self.payload_byte_size` from outside; the result is a function of those two returning
-`(bytes_on_first_page, has_overflow)`."""
+`(bytes_on_first_page, has_overflow)`.
+
+A header constructor `<Class>.__init__(self, data)` is translated whole: `self.a` becomes the variable `a`
+(`self` may occur in no other way), `super().__init__()` is dropped after checking that the base constructor only
+assigns None to attributes all of which this constructor assigns, and the result is a Lean structure `<Class>` with
+one field per attribute in the order of first assignment (every attribute must have a value of one type at the end).
+Parameter names are taken from the source (the configured ones document the positions), so a renamed parameter or
+local changes bound names only."""
 import ast
 import json
 import os
@@ -44,11 +62,14 @@ from . import constants as tr_constants
 
 REPO = os.environ.get("VERIF_REPO", "/repo")
 OUT = os.path.join(LEAN, "SqliteDissect", "Generated", "PyFun.lean")
+OUT_HEADER = os.path.join(LEAN, "SqliteDissect", "Generated", "PyHeader.lean")
 
 TRUSTED = ("translator harness/translate/pyfun.py + lean/SqliteDissect/PyPrelude.lean (Python source of the small pure "
-           "functions -> Generated/PyFun.lean, proved equal to the hand-written model functions in Properties/GenFun.lean); "
-           "trusted: the prelude's reading of Python int / slice / float operations (floats as exact fractions) and the "
-           "translator itself, both exercised against the interpreter by `python -m harness.translate.pyfun --selftest`")
+           "functions and of the header constructors -> Generated/PyFun.lean, Generated/PyHeader.lean, proved equal to the "
+           "hand-written model functions in Properties/GenFun.lean, Properties/GenHeader.lean); trusted: the prelude's "
+           "reading of Python int / slice / struct.unpack / float operations (floats as exact fractions, doubles as bit "
+           "patterns, md5 as the identity), the dropping of logging / warnings / message formatting, and the translator "
+           "itself, all exercised against the interpreter by `python -m harness.translate.pyfun --selftest`")
 
 MAX_LINES = 400  # per function: inlining the continuation into branches must not explode
 
@@ -89,6 +110,18 @@ FUNCTIONS = [
     dict(file=CARVE, name="decode_varint_in_reverse",
          params=[("byte_array", "buf"), ("offset", "int"), ("max_varint_length", "int")]),
     dict(file=CARVE, name="generate_regex_for_simplified_serial_type", params=[("simplified_serial_type", "int")]),
+    dict(file=UTIL, name="get_record_content", params=[("serial_type", "int"), ("record_body", "buf"), ("offset", "int")],
+         ret=("tuple", ["int", "val"])),
+    dict(file=CARVE, name="calculate_body_content_size", params=[("serial_type_header", "buf")]),
+]
+# constructors of the header classes: `__init__(self, <bytes>)` -> a structure of the attributes it assigns
+CLASSES = [
+    dict(file="sqlite_dissect/file/database/header.py", cls="DatabaseHeader", param="database_header_byte_array"),
+    dict(file="sqlite_dissect/file/wal/header.py", cls="WriteAheadLogHeader", param="wal_header_byte_array"),
+    dict(file="sqlite_dissect/file/wal/header.py", cls="WriteAheadLogFrameHeader",
+         param="wal_frame_header_byte_array"),
+    dict(file="sqlite_dissect/file/journal/header.py", cls="RollbackJournalHeader",
+         param="rollback_journal_header_byte_array"),
 ]
 CELLS = [
     dict(file=PAGE, cls="TableLeafCell", lean="tableLeafLocal"),
@@ -100,7 +133,16 @@ SLICE_INPUTS = {"_page_size": "page_size", "payload_byte_size": "payload_byte_si
 SLICE_DROPPED_CALLS = {"unpack", "int", "format"}
 
 LEAN_TYPE = {"int": "Int", "bool": "Bool", "buf": "Buf", "bytes": "List Nat", "rat": "PyRat", "str": "List Char",
-             "unit": "Unit"}
+             "unit": "Unit", "none": "Unit", "f64": "Nat", "val": "PyVal", "hexstr": "List Nat", "natlist": "List Nat",
+             "intlist": "List Int"}
+STATIC_TYPES = ("logger",)          # values that exist only for dropped statements (plus ("zeros_regex", n))
+UNPACK_FORMATS = {">b": (True, 1), ">B": (False, 1), ">h": (True, 2), ">H": (False, 2), ">i": (True, 4),
+                  ">I": (False, 4), ">q": (True, 8), ">Q": (False, 8)}
+# functions translated earlier in the same output that later ones may call: (module, name) -> (lean, params, result)
+KNOWN_CALLS = {
+    ("sqlite_dissect.utilities", "decode_varint"): ("decode_varint", ["buf", "int"], ("tuple", ["int", "int"])),
+    ("sqlite_dissect.carving.utilities", "get_content_size"): ("get_content_size", ["int"], "int"),
+}
 LEAN_KEYWORDS = {
     "end", "from", "at", "have", "show", "fun", "match", "open", "then", "do", "in", "let", "if", "else", "by",
     "instance", "structure", "namespace", "section", "variable", "universe", "theorem", "def", "import", "export",
@@ -116,9 +158,15 @@ BUILTIN_ERRORS = {"ValueError": "valueError", "TypeError": "typeError", "IndexEr
 
 
 def lean_ty(t):
+    if isinstance(t, tuple) and t[0] == "record":
+        return t[1]
     if isinstance(t, tuple):
         return "(" + " × ".join(lean_ty(x) for x in t[1]) + ")"
     return LEAN_TYPE[t]
+
+
+def is_static(t):
+    return t in STATIC_TYPES or (isinstance(t, tuple) and t[0] == "zeros_regex")
 
 
 def ident(name):
@@ -263,6 +311,37 @@ def _is_insert(call):
             and isinstance(call.func.value, ast.Name))
 
 
+def _is_msg_value(v):
+    if isinstance(v, ast.Constant) and isinstance(v.value, str):
+        return True
+    if isinstance(v, ast.JoinedStr):
+        return True
+    return isinstance(v, ast.Call) and isinstance(v.func, ast.Attribute) and v.func.attr == "format"
+
+
+def completes(stmts):
+    """may the block complete normally (syntactic)?"""
+    for st in stmts:
+        if isinstance(st, (ast.Return, ast.Raise, ast.Break, ast.Continue)):
+            return False
+        if isinstance(st, ast.If) and not completes(st.body) and not completes(st.orelse):
+            return False
+        if isinstance(st, ast.Try) and not completes(st.body):
+            return False
+    return True
+
+
+def if_leaves(st):
+    """the branches of an if / elif / else chain (the implicit else is an empty branch)"""
+    out = [st.body]
+    orelse = st.orelse
+    while len(orelse) == 1 and isinstance(orelse[0], ast.If):
+        out.append(orelse[0].body)
+        orelse = orelse[0].orelse
+    out.append(orelse)
+    return out
+
+
 def has_abrupt(stmts):
     for st in stmts:
         for node in ast.walk(st):
@@ -289,8 +368,14 @@ def is_logging_call(node):
 
 # ------------------------------------------------------------------------------------------------ one function
 class FnTranslator:
-    def __init__(self, mod, lean_name, params, body, consts, defaults=None, doc=""):
+    def __init__(self, mod, lean_name, params, body, consts, defaults=None, doc="", ret=None, super_ok=False,
+                 prefix=""):
         self.mod = mod
+        self.ret_spec = ret                    # declared result type (components of type `val` are wrapped in PyVal)
+        self.super_ok = super_ok               # `super().__init__()` was checked to assign only None to attributes
+        self.prefix = prefix                   # namespace prefix of functions of the other generated file
+        self.record_fields = None
+        self.record_name = None
         self.name = lean_name
         self.params = params                   # [(python name, type)]
         self.body = body
@@ -304,6 +389,15 @@ class FnTranslator:
         self.loops = []                        # stack of dict(brk=, cont=)
         self.needs_fuel = any(isinstance(n, ast.While) for st in body for n in ast.walk(st))
         self.all_names = set(assigned_names(body)) | {p for p, _ in params}
+        # names that only ever hold message strings (never block a join)
+        self.msg_only = set()
+        for n in self.all_names:
+            vals = [x.value for st in body for x in ast.walk(st) if isinstance(x, ast.Assign)
+                    and any(isinstance(t, ast.Name) and t.id == n for t in x.targets)]
+            augs = [x for st in body for x in ast.walk(st) if isinstance(x, ast.AugAssign)
+                    and isinstance(x.target, ast.Name) and x.target.id == n]
+            if vals and not augs and all(_is_msg_value(v) for v in vals):
+                self.msg_only.add(n)
 
     # ---- errors
     def bad(self, msg, node):
@@ -323,6 +417,8 @@ class FnTranslator:
     def expr(self, node, env, pre):
         if isinstance(node, ast.Constant):
             v = node.value
+            if v is None:
+                return "()", "none"
             if isinstance(v, bool):
                 return ("true" if v else "false"), "bool"
             if isinstance(v, int):
@@ -348,7 +444,12 @@ class FnTranslator:
                 v = self.consts.get(node.id)
                 if isinstance(v, int) and not isinstance(v, bool):
                     return f"(Generated.{node.id} : Int)", "int"
-                self.bad(f"imported constant `{node.id}` is not an integer known to Generated.Constants", node)
+                if isinstance(v, bytes) and 1 <= len(v) <= 16:
+                    return f"Generated.{node.id}", "bytes"
+                if isinstance(v, list) and v and all(isinstance(x, int) and not isinstance(x, bool) for x in v):
+                    return f"Generated.{node.id}", ("intlist" if any(x < 0 for x in v) else "natlist")
+                self.bad(f"imported constant `{node.id}` is not an integer / byte string / integer list known to "
+                         f"Generated.Constants", node)
             self.bad(f"unknown name `{node.id}`", node)
         if isinstance(node, ast.UnaryOp):
             if isinstance(node.op, ast.USub):
@@ -516,13 +617,103 @@ class FnTranslator:
                 tmp = self.fresh()
                 pre.append(f"let {tmp} ← pyUnhexlify {atom(a)}")
                 return tmp, "bytes"
+            if f.id == "__record__":           # synthetic: the attributes of a constructor, in source order
+                fields = []
+                for a in node.args:
+                    t = env.get(a.id)
+                    if t is None:
+                        self.bad(f"attribute `{a.id}` may be unassigned at the end of the constructor", node)
+                    if t not in ("int", "bytes", "bool"):
+                        self.bad(f"attribute `{a.id}` ends with a value of type {t}", node)
+                    fields.append((a.id, t))
+                self.record_fields = fields
+                return ("{ " + ", ".join(f"{ident(n)} := {ident(n)}" for n, _ in fields) + " }",
+                        ("record", self.record_name))
+            if f.id == "get_md5_hash" and self.mod.imported.get(f.id) == ("sqlite_dissect.utilities", "get_md5_hash") \
+                    and len(node.args) == 1:
+                a, t = self.expr(node.args[0], env, pre)
+                if t == "buf":
+                    return f"pyMd5 (Buf.toList {atom(a)})", "bytes"
+                if t == "bytes":
+                    return f"pyMd5 {atom(a)}", "bytes"
+                self.bad(f"get_md5_hash of a value of type {t}", node)
+            if f.id == "compile" and self.mod.imported.get("compile") == ("re", "compile") and len(node.args) == 1 \
+                    and isinstance(node.args[0], ast.Name) and node.args[0].id in self.mod.const_names:
+                v = self.consts.get(node.args[0].id)
+                m = re.fullmatch(r"\^0\{(\d+)\}\$", v) if isinstance(v, str) else None
+                if m is None:
+                    self.bad(f"compile() of a pattern that is not of the form ^0{{n}}$ ({v!r})", node)
+                return "", ("zeros_regex", int(m.group(1)))
+            key = None
+            if f.id in self.mod.imported:
+                key = self.mod.imported[f.id]
+            elif f.id in self.mod.module_defs:
+                key = (self.mod.relpath[:-3].replace("/", "."), f.id)
+            if key in KNOWN_CALLS:
+                lean, ptys, rty = KNOWN_CALLS[key]
+                if len(node.args) != len(ptys):
+                    self.bad(f"call of `{f.id}` with {len(node.args)} arguments (all {len(ptys)} must be given)", node)
+                args = []
+                for a_node, want in zip(node.args, ptys):
+                    a, t = self.expr(a_node, env, pre)
+                    if t != want:
+                        self.bad(f"argument of type {t} where `{f.id}` takes {want}", node)
+                    args.append(atom(a))
+                tmp = self.fresh()
+                pre.append(f"let {tmp} ← {self.prefix}{lean} " + " ".join(args))
+                return tmp, rty
             self.bad(f"call of `{f.id}` is outside the subset", node)
+        if isinstance(f, ast.Attribute) and f.attr == "decode" and not node.args and isinstance(f.value, ast.Call) \
+                and isinstance(f.value.func, ast.Name) and f.value.func.id == "hexlify" \
+                and self.mod.imported.get("hexlify") == ("binascii", "hexlify") and len(f.value.args) == 1 \
+                and not f.value.keywords:
+            a, t = self.expr(f.value.args[0], env, pre)
+            if t != "bytes":
+                self.bad("hexlify(..).decode() of something that is not a byte string", node)
+            return a, "hexstr"               # a hex string is carried as the bytes it spells (hexlify is injective)
+        if isinstance(f, ast.Attribute) and f.attr == "match" and isinstance(f.value, ast.Name) \
+                and isinstance(env.get(f.value.id), tuple) and env[f.value.id][0] == "zeros_regex" \
+                and len(node.args) == 1:
+            a, t = self.expr(node.args[0], env, pre)
+            if t != "hexstr":
+                self.bad("pattern.match of something that is not hexlify(..).decode()", node)
+            return f"pyZerosHexMatch {env[f.value.id][1]} {atom(a)}", "bool"
         self.bad("call of this form is outside the subset", node)
 
     def subscript(self, node, env, pre):
-        if not isinstance(node.value, ast.Name):
+        v = node.value
+        if isinstance(v, ast.Call) and isinstance(v.func, ast.Name) and v.func.id == "unpack":
+            # unpack(FMT, data)[0] for a one-field big-endian format
+            if self.mod.imported.get("unpack") != ("struct", "unpack") or v.keywords or len(v.args) != 2 \
+                    or self.int_literal(node.slice) != 0 or not isinstance(v.args[0], ast.Constant):
+                self.bad("only `unpack(FORMAT, data)[0]` with struct.unpack and a literal format is inside the subset",
+                         node)
+            fmt = v.args[0].value
+            fmt = fmt.decode("ascii", "replace") if isinstance(fmt, bytes) else fmt
+            a, t = self.expr(v.args[1], env, pre)
+            if t != "bytes":
+                self.bad(f"unpack of a value of type {t}", node)
+            tmp = self.fresh()
+            if fmt == ">d":
+                pre.append(f"let {tmp} ← pyUnpackDouble {atom(a)}")
+                return tmp, "f64"
+            if fmt not in UNPACK_FORMATS:
+                self.bad(f"unpack format {fmt!r} is outside the subset", node)
+            signed, n = UNPACK_FORMATS[fmt]
+            pre.append(f"let {tmp} ← pyUnpackBE {'true' if signed else 'false'} {n} {atom(a)}")
+            return tmp, "int"
+        if not isinstance(v, ast.Name):
             self.bad("subscript of a non-name", node)
         a, t = self.expr(node.value, env, pre)
+        if t == "buf":
+            s = node.slice
+            if isinstance(s, ast.Slice) and s.step is None and s.lower is not None and s.upper is not None:
+                lo, tl = self.expr(s.lower, env, pre)
+                hi, th = self.expr(s.upper, env, pre)
+                if tl != "int" or th != "int":
+                    self.bad("slice bound that is not an integer", node)
+                return f"pySliceBuf {atom(a)} {atom(lo)} {atom(hi)}", "bytes"
+            self.bad("only two-bound slices `b[lo:hi]` of a byte buffer are inside the subset", node)
         if t != "bytes":
             self.bad(f"subscript of a value of type {t} outside ord(..) is outside the subset", node)
         s = node.slice
@@ -541,6 +732,39 @@ class FnTranslator:
         if isinstance(node, ast.Compare):
             ops = {ast.Eq: "=", ast.NotEq: "≠", ast.Lt: "<", ast.LtE: "≤", ast.Gt: ">", ast.GtE: "≥"}
             operands = [node.left] + list(node.comparators)
+            if len(node.ops) == 1 and isinstance(node.ops[0], (ast.In, ast.NotIn)):
+                a, t = self.expr(node.left, env, pre)
+                if t != "int":
+                    self.bad(f"membership test of a value of type {t}", node)
+                r = node.comparators[0]
+                if isinstance(r, (ast.List, ast.Tuple)) and r.elts:
+                    inner = []
+                    alts = []
+                    for e in r.elts:
+                        b, tb = self.expr(e, env, inner)
+                        if tb != "int" or inner:
+                            self.bad("membership in a literal list whose elements are not plain integers", node)
+                        alts.append(f"{atom(a)} = {atom(b)}")
+                    c = alts[0] if len(alts) == 1 else " ∨ ".join(alts)
+                else:
+                    inner = []
+                    b, tb = self.expr(r, env, inner)
+                    if inner or tb not in ("natlist", "intlist"):
+                        self.bad("membership in something that is not a list of integers", node)
+                    c = f"{atom(a)} ∈ " + (f"List.map (fun n : Nat => (n : Int)) {atom(b)}" if tb == "natlist"
+                                           else atom(b))
+                return c if isinstance(node.ops[0], ast.In) else f"¬ ({c})"
+            if len(node.ops) == 1 and isinstance(node.ops[0], (ast.Eq, ast.NotEq)):
+                n0 = len(pre)
+                save = self.tmp
+                a, ta = self.expr(node.left, env, pre)
+                if ta == "bytes":
+                    b, tb = self.expr(node.comparators[0], env, pre)
+                    if tb != "bytes":
+                        self.bad(f"comparison of a byte string with a value of type {tb}", node)
+                    return f"{atom(a)} {'=' if isinstance(node.ops[0], ast.Eq) else '≠'} {atom(b)}"
+                del pre[n0:]
+                self.tmp = save
             if len(operands) > 2:
                 for mid in operands[1:-1]:
                     if not isinstance(mid, (ast.Name, ast.Constant)):
@@ -587,11 +811,25 @@ class FnTranslator:
                 return env
             if is_logging_call(st.value):
                 return env
+            c = st.value
+            if isinstance(c, ast.Call) and isinstance(c.func, ast.Name) and c.func.id == "warn" \
+                    and self.mod.imported.get("warn") == ("warnings", "warn"):
+                return env                       # warnings.warn: no effect on the result (filters are not modelled)
+            if self.super_ok and isinstance(c, ast.Call) and not c.args and not c.keywords \
+                    and isinstance(c.func, ast.Attribute) and c.func.attr == "__init__" \
+                    and isinstance(c.func.value, ast.Call) and isinstance(c.func.value.func, ast.Name) \
+                    and c.func.value.func.id == "super" and not c.func.value.args:
+                return env                       # checked by the caller: assigns None to attributes only
             return None
         if isinstance(st, ast.Assign) and len(st.targets) == 1 and isinstance(st.targets[0], ast.Name):
             v = st.value
             if isinstance(v, ast.Constant) and isinstance(v.value, str):
                 return {**env, st.targets[0].id: "msg"}
+            if isinstance(v, ast.JoinedStr) and st.targets[0].id in self.msg_only:
+                return {**env, st.targets[0].id: "msg"}
+            if isinstance(v, ast.Call) and isinstance(v.func, ast.Name) and v.func.id == "getLogger" \
+                    and self.mod.imported.get("getLogger") == ("logging", "getLogger"):
+                return {**env, st.targets[0].id: "logger"}
             if (isinstance(v, ast.Call) and isinstance(v.func, ast.Attribute) and v.func.attr == "format"
                     and ((isinstance(v.func.value, ast.Name) and env.get(v.func.value.id) == "msg")
                          or (isinstance(v.func.value, ast.Constant) and isinstance(v.func.value.value, str)))):
@@ -601,8 +839,11 @@ class FnTranslator:
     def as_assign(self, st, env):
         """(target name, value node) of an assignment-like statement, else None"""
         if isinstance(st, ast.Assign):
+            if len(st.targets) == 1 and isinstance(st.targets[0], ast.Tuple) \
+                    and all(isinstance(e, ast.Name) for e in st.targets[0].elts):
+                return [e.id for e in st.targets[0].elts], st.value, "tuple"
             if len(st.targets) != 1 or not isinstance(st.targets[0], ast.Name):
-                self.bad("assignment to anything but a single name is outside the subset", st)
+                self.bad("assignment to anything but a single name (or a tuple of names) is outside the subset", st)
             return st.targets[0].id, st.value, None
         if isinstance(st, ast.AugAssign):
             if not isinstance(st.target, ast.Name):
@@ -631,6 +872,13 @@ class FnTranslator:
             pre.append(f"let {ident(name)} ← pyInsert0 {ident(name)} {atom(a)}")
             return pre, env
         a, t = self.expr(value, env, pre)
+        if special == "tuple":
+            if not (isinstance(t, tuple) and t[0] == "tuple" and len(t[1]) == len(name)):
+                self.bad("tuple assignment from something that is not a tuple of the same length", st)
+            pre.append(f"let {tuple_text([ident(n) for n in name])} : {lean_ty(t)} := {a}")
+            return pre, {**env, **dict(zip(name, t[1]))}
+        if is_static(t):
+            return pre, {**env, name: t}
         if isinstance(t, tuple):
             self.bad("assignment of a tuple is outside the subset", st)
         if t == "rat":
@@ -693,7 +941,8 @@ class FnTranslator:
         for n in vs:
             env2[n] = e1[n]
         if not vs:
-            return None
+            # a pure `if` that assigns nothing that survives it (only logging / warnings inside): no effect
+            return "", env2
 
         def branch(lets):
             res = tuple_text([ident(v) for v in vs])
@@ -716,18 +965,35 @@ class FnTranslator:
         if isinstance(st, (ast.Assign, ast.AugAssign)) or (isinstance(st, ast.Expr) and _is_insert(st.value)):
             lines, env2 = self.assign_lines(st, env)
             return lines + k(env2)
+        if isinstance(st, ast.Try):
+            # try: BODY except X: <logging> raise   — the handlers change nothing
+            if st.orelse or st.finalbody or not st.handlers:
+                self.bad("try with else / finally is outside the subset", st)
+            for h in st.handlers:
+                if h.name is not None or not h.body or not isinstance(h.body[-1], ast.Raise) \
+                        or h.body[-1].exc is not None or h.body[-1].cause is not None:
+                    self.bad("only handlers that end in a bare `raise` are inside the subset", h)
+                e = env
+                for hs in h.body[:-1]:
+                    e = self.dropped(hs, e)
+                    if e is None:
+                        self.bad("a handler may only log before it re-raises", hs)
+            return self.block(st.body, env, k)
         if isinstance(st, ast.Return):
             if self.loops:
                 self.bad("return inside a loop is outside the subset", st)
             if st.value is None:
                 self.bad("return without a value", st)
             pre = []
+            self._ret_env = env
             a, t = self.expr(st.value, env, pre)
             if t == "rat":
                 tmp = self.fresh()
                 pre.append(f"let {tmp} ← pyFloatAsInt {atom(a)}")
                 a, t = tmp, "int"
-            if isinstance(t, tuple) and any(x == "rat" or isinstance(x, tuple) for x in t[1]):
+            if self.ret_spec is not None:
+                a, t = self.coerce_return(st, a, t)
+            if isinstance(t, tuple) and t[0] == "tuple" and any(x == "rat" or isinstance(x, tuple) for x in t[1]):
                 self.bad("tuple return with a float or nested tuple component", st)
             if self.ret_type is None:
                 self.ret_type = t
@@ -752,6 +1018,37 @@ class FnTranslator:
             return self.while_stmt(st, env, k)
         self.bad(f"statement {type(st).__name__} is outside the subset", st)
 
+    def coerce_return(self, st, a, t):
+        """wrap the components the declared result type calls `val` into PyVal"""
+        want = self.ret_spec
+        wrap = {"none": "PyVal.none", "int": "PyVal.int {}", "f64": "PyVal.float64 {}", "bytes": "PyVal.bytes {}"}
+        if want == "val":
+            if t not in wrap:
+                self.bad(f"return of a value of type {t} where a dynamic value is declared", st)
+            return wrap[t].format(atom(a)), "val"
+        if isinstance(want, tuple) and want[0] == "tuple":
+            if not (isinstance(t, tuple) and t[0] == "tuple" and len(t[1]) == len(want[1])
+                    and isinstance(st.value, ast.Tuple)):
+                self.bad("return of something that is not a literal tuple of the declared length", st)
+            parts, tys = [], []
+            for e, w in zip(st.value.elts, want[1]):
+                inner = []
+                x, tx = self.expr(e, {**self._ret_env}, inner)
+                if inner:
+                    self.bad("tuple component that can raise in a return with a declared type", st)
+                if w == "val":
+                    if tx not in wrap:
+                        self.bad(f"return of a value of type {tx} where a dynamic value is declared", st)
+                    x, tx = wrap[tx].format(atom(x)), "val"
+                elif tx != w:
+                    self.bad(f"return component of type {tx}, declared {w}", st)
+                parts.append(x)
+                tys.append(tx)
+            return tuple_text(parts), ("tuple", tys)
+        if t != want:
+            self.bad(f"return of type {t}, declared {want}", st)
+        return a, t
+
     def exc(self, st):
         e = st.exc
         if e is None or st.cause is not None:
@@ -765,10 +1062,66 @@ class FnTranslator:
             return BUILTIN_ERRORS[cls.id]
         self.bad(f"raise of `{cls.id}` which is neither a sqlite_dissect.exception class nor a known builtin", st)
 
+    def reads_outside(self, st):
+        inside = {id(x) for x in ast.walk(st)}
+        out = set()
+        for b in self.body:
+            for x in ast.walk(b):
+                if isinstance(x, ast.Name) and isinstance(x.ctx, ast.Load) and id(x) not in inside:
+                    out.add(x.id)
+        return out
+
+    def stmts_after(self, st):
+        """number of statements of the function that start after `st` ends (what inlining would duplicate)"""
+        end = getattr(st, "end_lineno", None) or st.lineno
+        return sum(1 for b in self.body for x in ast.walk(b) if isinstance(x, ast.stmt) and x.lineno > end)
+
+    def join_m(self, st, env, k):
+        """`let vars ← (show Py T from do <the if, every normal end yielding vars>)` — used when two or more
+        branches complete normally and nothing but `raise` leaves the statement; None if not applicable"""
+        for x in ast.walk(st):
+            if isinstance(x, (ast.Return, ast.Break, ast.Continue, ast.For, ast.While)):
+                return None
+        assigned = assigned_names([st])
+        vs = [n for n in assigned if n in env and env[n] != "msg" and not is_static(env[n])]
+        lost = [n for n in assigned if n not in env and n not in self.msg_only]
+        outside = self.reads_outside(st)
+        if any(n in outside for n in lost):
+            return None
+        types = {}
+
+        def leaf(e):
+            for n in vs:
+                if n not in e or e[n] == "msg":
+                    self.bad(f"`{n}` is not a value at the end of a branch", st)
+                if types.setdefault(n, e[n]) != e[n]:
+                    self.bad(f"`{n}` has different types at the ends of the branches", st)
+            return [f".ok {atom(tuple_text([ident(n) for n in vs]))}"]
+
+        inner = self.if_inline(st, env, leaf)
+        ty = tuple_type([types.get(n, env[n]) for n in vs])
+        pat = tuple_text([ident(n) for n in vs]) if vs else "_"
+        lines = [f"let {pat} ← (show Py {atom(ty)} from do"] + indent(inner)
+        lines[-1] += ")"
+        env2 = {n: t for n, t in env.items() if n not in assigned or n in vs}
+        for n in vs:
+            env2[n] = types.get(n, env[n])
+        return lines + k(env2)
+
     def if_stmt(self, st, env, k):
         j = self.join_if(st, env)
         if j is not None:
-            return [j[0]] + k(j[1])
+            return ([j[0]] if j[0] else []) + k(j[1])
+        if sum(1 for b in if_leaves(st) if completes(b)) >= 2 and self.stmts_after(st) >= 2:
+            save = (self.tmp, self.nloops, len(self.aux))
+            jm = self.join_m(st, env, k)
+            if jm is not None:
+                return jm
+            self.tmp, self.nloops = save[0], save[1]
+            del self.aux[save[2]:]
+        return self.if_inline(st, env, k)
+
+    def if_inline(self, st, env, k):
         pre = []
         c = self.cond(st.test, env, pre)
         then = self.block(st.body, env, k)
@@ -912,18 +1265,129 @@ def translate_function(spec, repo, consts):
         raise Unsupported("parameter list with * / ** / keyword-only parameters", fn, mod.src)
     names = [x.arg for x in a.args]
     want = [p for p, _ in spec["params"]]
-    if names != want:
+    if len(names) != len(want):
         raise Unsupported(f"parameters of `{spec['name']}` are {names}, the translator is configured for {want}", fn,
                           mod.src)
+    # the configured names only document the positions: a renamed parameter keeps its position and type
+    params = [(n, t) for n, (_w, t) in zip(names, spec["params"])]
     defaults = {}
     for arg, d in zip(a.args[len(a.args) - len(a.defaults):], a.defaults):
         if isinstance(d, ast.Constant) and isinstance(d.value, int) and not isinstance(d.value, bool):
             defaults[arg.arg] = str(d.value) if d.value >= 0 else f"({d.value})"
         else:
             raise Unsupported("default value that is not an integer literal", fn, mod.src)
-    tr = FnTranslator(mod, spec["name"], spec["params"], fn.body, consts, defaults,
-                      doc=f"`{spec['name']}` of {spec['file']}")
+    tr = FnTranslator(mod, spec["name"], params, fn.body, consts, defaults,
+                      doc=f"`{spec['name']}` of {spec['file']}", ret=spec.get("ret"))
     return tr.translate()
+
+
+# ------------------------------------------------------------------------------------------------ header constructors
+def _module_file(repo, module):
+    return os.path.join(*module.split(".")) + ".py"
+
+
+def _super_assigns_only_none(mod, cls_node, repo):
+    """the attributes `super().__init__()` sets, provided the base constructor consists of `self.a = None` only"""
+    if not cls_node.bases:
+        return []
+    if len(cls_node.bases) != 1 or not isinstance(cls_node.bases[0], ast.Name):
+        raise Unsupported("class with several / computed bases", cls_node, mod.src)
+    base = cls_node.bases[0].id
+    if base == "object":
+        return []
+    if base not in mod.imported:
+        raise Unsupported(f"base class `{base}` is not imported by name", cls_node, mod.src)
+    bmod_name, bname = mod.imported[base]
+    bmod = Module(_module_file(repo, bmod_name), repo)
+    cs = [n for n in bmod.tree.body if isinstance(n, ast.ClassDef) and n.name == bname]
+    if len(cs) != 1:
+        raise Unsupported(f"base class `{bname}` not found in {bmod.relpath}", cls_node, mod.src)
+    if cs[0].bases and not (len(cs[0].bases) == 1 and isinstance(cs[0].bases[0], ast.Name)
+                            and cs[0].bases[0].id == "object"):
+        raise Unsupported(f"base class `{bname}` has bases of its own", cls_node, mod.src)
+    inits = [n for n in cs[0].body if isinstance(n, ast.FunctionDef) and n.name == "__init__"]
+    if not inits:
+        return []
+    attrs = []
+    for st in inits[0].body:
+        if isinstance(st, ast.Expr) and isinstance(st.value, ast.Constant) and isinstance(st.value.value, str):
+            continue
+        if (isinstance(st, ast.Assign) and len(st.targets) == 1 and _self_attr(st.targets[0]) is not None
+                and isinstance(st.value, ast.Constant) and st.value.value is None):
+            attrs.append(_self_attr(st.targets[0]))
+            continue
+        raise Unsupported(f"`{bname}.__init__` ({bmod.relpath}:{st.lineno}) does more than `self.a = None`",
+                          cls_node, mod.src)
+    return attrs
+
+
+def translate_class(spec, repo, consts):
+    import copy
+    mod = Module(spec["file"], repo)
+    cs = [n for n in mod.tree.body if isinstance(n, ast.ClassDef) and n.name == spec["cls"]]
+    if len(cs) != 1:
+        raise Unsupported(f"expected exactly one class `{spec['cls']}`, found {len(cs)}")
+    init = mod.method(spec["cls"], "__init__")
+    a = init.args
+    if a.vararg or a.kwarg or a.kwonlyargs or a.posonlyargs or a.defaults or len(a.args) != 2 \
+            or a.args[0].arg != "self":
+        raise Unsupported(f"parameters of `{spec['cls']}.__init__` are {[x.arg for x in a.args]}, the translator is "
+                          f"configured for ['self', '{spec['param']}']", init, mod.src)
+    param = a.args[1].arg            # the configured name only documents the position
+    base_attrs = _super_assigns_only_none(mod, cs[0], repo)
+    # every use of `self` must be `self.<attr>`
+    attr_nodes = {id(x.value) for x in ast.walk(init) if _self_attr(x) is not None}
+    for x in ast.walk(init):
+        if isinstance(x, ast.Name) and x.id == "self" and id(x) not in attr_nodes:
+            raise Unsupported("`self` used other than as `self.<attribute>`", x, mod.src)
+    stores = []
+    for x in ast.walk(init):
+        if isinstance(x, (ast.Assign, ast.AugAssign)):
+            for t in (x.targets if isinstance(x, ast.Assign) else [x.target]):
+                for y in ast.walk(t):
+                    at = _self_attr(y)
+                    if at is not None:
+                        stores.append((y.lineno, y.col_offset, at))
+    attrs = []
+    for _l, _c, at in sorted(stores):
+        if at not in attrs:
+            attrs.append(at)
+    if not attrs:
+        raise Unsupported(f"`{spec['cls']}.__init__` assigns no attribute", init, mod.src)
+    local_names = set(assigned_names(init.body)) | {param}
+    clash = local_names & set(attrs)
+    if clash:
+        raise Unsupported(f"local variable(s) {sorted(clash)} have the names of attributes", init, mod.src)
+    missing = [b for b in base_attrs if b not in attrs]
+    if missing:
+        raise Unsupported(f"attribute(s) {missing} are left at None by `{spec['cls']}.__init__`", init, mod.src)
+
+    class Rn(ast.NodeTransformer):
+        def visit_Attribute(self, node):
+            at = _self_attr(node)
+            if at is not None:
+                return ast.copy_location(ast.Name(id=at, ctx=node.ctx), node)
+            return self.generic_visit(node)
+
+    body = [Rn().visit(copy.deepcopy(st)) for st in init.body]
+    last = init.body[-1]
+    ret = ast.Return(value=ast.Call(func=ast.Name(id="__record__", ctx=ast.Load()),
+                                    args=[ast.Name(id=at, ctx=ast.Load()) for at in attrs], keywords=[]))
+    for n in ast.walk(ret):
+        ast.copy_location(n, last)
+        n.lineno = n.end_lineno = (getattr(last, "end_lineno", None) or last.lineno) + 1
+    body.append(ret)
+    tr = FnTranslator(mod, spec["cls"] + ".init", [(param, "buf")], body, consts,
+                      doc=f"`{spec['cls']}.__init__` of {spec['file']}: the attributes it assigns, or the exception "
+                          f"class it raises", super_ok=True)
+    tr.record_name = spec["cls"]
+    lines = tr.translate()
+    fields = tr.record_fields
+    struct = [f"/-- the attributes of a `{spec['cls']}` ({spec['file']}) in the order of their first assignment -/",
+              f"structure {spec['cls']} where"]
+    struct += [f"  {ident(n)} : {lean_ty(t)}" for n, t in fields]
+    struct += ["  deriving Repr, DecidableEq", ""]
+    return struct + lines
 
 
 # ------------------------------------------------------------------------------------------------ cell constructors
@@ -1104,20 +1568,21 @@ class CellSlicer:
 
 
 # ------------------------------------------------------------------------------------------------ rendering
-HEADER = [
-    "/- GENERATED by harness/translate/pyfun.py from sqlite_dissect/utilities.py, sqlite_dissect/carving/utilities.py",
-    "   and sqlite_dissect/file/database/page.py — do not edit.  Meaning of the `py*` operations: PyPrelude.lean. -/",
-    "import SqliteDissect.Py",
-    "import SqliteDissect.Bytes",
-    "import SqliteDissect.Generated.Constants",
-    "import SqliteDissect.PyPrelude",
-    "",
-    "set_option linter.unusedVariables false",
-    "",
-    "namespace SqliteDissect.Generated.PyFun",
-    "open SqliteDissect",
-    "",
-]
+def header(namespace, sources):
+    return [
+        f"/- GENERATED by harness/translate/pyfun.py from {sources}",
+        "   — do not edit.  Meaning of the `py*` operations: PyPrelude.lean. -/",
+        "import SqliteDissect.Py",
+        "import SqliteDissect.Bytes",
+        "import SqliteDissect.Generated.Constants",
+        "import SqliteDissect.PyPrelude",
+        "",
+        "set_option linter.unusedVariables false",
+        "",
+        f"namespace SqliteDissect.Generated.{namespace}",
+        "open SqliteDissect",
+        "",
+    ]
 
 
 def failing(name, message):
@@ -1129,39 +1594,42 @@ def failing(name, message):
             f"by assumption", ""]
 
 
+def _each(items, name_of, file_of, fn, failures, lines):
+    for spec in items:
+        nm = name_of(spec)
+        try:
+            lines += fn(spec) + [""]
+        except Unsupported as e:
+            m = e.text(file_of(spec))
+            failures.append(f"{nm}: {m}")
+            lines += failing(nm, m)
+        except (OSError, SyntaxError) as e:
+            failures.append(f"{nm}: {file_of(spec)}: {e}")
+            lines += failing(nm, f"{file_of(spec)}: {e}")
+
+
 def render(repo=None):
-    """(text, list of failure messages)"""
+    """({file: text}, list of failure messages)"""
     repo = repo or os.environ.get("VERIF_REPO", "/repo")
     failures = []
-    lines = list(HEADER)
     try:
         consts = _consts(repo)
     except Exception as e:  # constants.py unreadable: nothing can be translated
         consts = {}
         failures.append(f"constants: {e}")
-    for spec in FUNCTIONS:
-        try:
-            lines += translate_function(spec, repo, consts) + [""]
-        except Unsupported as e:
-            m = e.text(spec["file"])
-            failures.append(f"{spec['name']}: {m}")
-            lines += failing(spec["name"], m)
-        except (OSError, SyntaxError) as e:
-            failures.append(f"{spec['name']}: {spec['file']}: {e}")
-            lines += failing(spec["name"], f"{spec['file']}: {e}")
-    for spec in CELLS:
-        try:
-            mod = Module(spec["file"], repo)
-            lines += CellSlicer(mod, spec["cls"]).function(spec["lean"], consts) + [""]
-        except Unsupported as e:
-            m = e.text(spec["file"])
-            failures.append(f"{spec['lean']}: {m}")
-            lines += failing(spec["lean"], m)
-        except (OSError, SyntaxError) as e:
-            failures.append(f"{spec['lean']}: {spec['file']}: {e}")
-            lines += failing(spec["lean"], f"{spec['file']}: {e}")
+    lines = header("PyFun", "sqlite_dissect/utilities.py, sqlite_dissect/carving/utilities.py\n"
+                            "   and sqlite_dissect/file/database/page.py")
+    _each(FUNCTIONS, lambda sp: sp["name"], lambda sp: sp["file"], lambda sp: translate_function(sp, repo, consts),
+          failures, lines)
+    _each(CELLS, lambda sp: sp["lean"], lambda sp: sp["file"],
+          lambda sp: CellSlicer(Module(sp["file"], repo), sp["cls"]).function(sp["lean"], consts), failures, lines)
     lines += ["end SqliteDissect.Generated.PyFun", ""]
-    return "\n".join(lines), failures
+    hlines = header("PyHeader", "sqlite_dissect/file/database/header.py, sqlite_dissect/file/wal/header.py\n"
+                                "   and sqlite_dissect/file/journal/header.py")
+    _each(CLASSES, lambda sp: sp["cls"], lambda sp: sp["file"], lambda sp: translate_class(sp, repo, consts),
+          failures, hlines)
+    hlines += ["end SqliteDissect.Generated.PyHeader", ""]
+    return {OUT: "\n".join(lines), OUT_HEADER: "\n".join(hlines)}, failures
 
 
 def _consts(repo):
@@ -1174,17 +1642,18 @@ def _consts(repo):
 
 
 def regenerate():
-    text, failures = render()
+    texts, failures = render()
     for f in failures:
         print(f"[translate.pyfun] generated model could not be produced: {f}", file=sys.stderr, flush=True)
-    old = open(OUT, encoding="utf-8").read() if os.path.exists(OUT) else None
-    if old != text:
-        os.makedirs(os.path.dirname(OUT), exist_ok=True)
-        with open(OUT, "w", encoding="utf-8") as fh:
-            fh.write(text)
-        return True
-    return False
-
+    changed = False
+    for path, text in texts.items():
+        old = open(path, encoding="utf-8").read() if os.path.exists(path) else None
+        if old != text:
+            os.makedirs(os.path.dirname(path), exist_ok=True)
+            with open(path, "w", encoding="utf-8") as fh:
+                fh.write(text)
+            changed = True
+    return changed
 
 
 # ------------------------------------------------------------------------------------------------ self test
@@ -1322,6 +1791,121 @@ def selftest(seed=0, verbose=True):
         for n in (-5, -1, 0, 1, 2, 3, 4, 5, 507, 508, 509, 1016, 1017, 4091, 4092, 4093, 10**6, 2**40 + 3):
             add(f"sP (fun (a, b) => sI a ++ \" \" ++ sI b) (calculate_expected_overflow {I(n)} {I(ps)})",
                 E(lambda: "%d %d" % U.calculate_expected_overflow(n, ps)))
+    # --- get_record_content / calculate_body_content_size
+    import struct
+    import warnings
+    warnings.simplefilter("ignore")
+
+    def show_val(v):
+        if v is None:
+            return "none"
+        if isinstance(v, bool):
+            raise RuntimeError("bool")
+        if isinstance(v, int):
+            return f"int:{v}"
+        if isinstance(v, float):
+            return "f64:%d" % struct.unpack(">Q", struct.pack(">d", v))[0]
+        return "bytes:" + L(bytes(v))
+
+    bodies = [b"", b"\x80", b"\xff\x7f", b"\x80\x00\x00", b"\x7f\xff\xff\xff", b"\xff" * 6, b"\x80" + b"\x00" * 7,
+              bytes(range(1, 12)), b"\x40\x09\x21\xfb\x54\x44\x2d\x18", b"\x7f\xf8" + b"\x00" * 6]
+    bodies += [bytes(rng.randrange(256) for _ in range(rng.choice([1, 2, 3, 4, 6, 8, 9, 16]))) for _ in range(12)]
+    for st in list(range(-2, 30)) + [101, 102, 1000, 1001]:
+        for body in bodies:
+            for off in (0, 1, 3, len(body), -1, -3):
+                add(f"sP (fun (a, v) => sI a ++ \" \" ++ sV v) (get_record_content {I(st)} (Buf.ofList {L(body)}) {I(off)})",
+                    E(lambda: (lambda r: "%d %s" % (r[0], show_val(r[1])))(U.get_record_content(st, body, off))))
+    hdrs = [b"", b"\x00", b"\x01\x02\x0c\x0d\x17", b"\x81", b"\x81\x00\x0a", b"\x0a", b"\xff" * 9 + b"\x01", b"\x0c" * 20,
+            b"\x80\x80\x80"]
+    hdrs += [bytes(rng.choice([rng.randrange(128), rng.randrange(256)]) for _ in range(rng.randrange(1, 12)))
+             for _ in range(40)]
+    for hb in hdrs:
+        for fl in (len(hb) + 1, len(hb)):
+
+            def cbcs():
+                r = CU.calculate_body_content_size(hb)
+                if isinstance(r, float):
+                    if r != int(r):
+                        raise RuntimeError("non-integral float")
+                    r = int(r)
+                return str(r)
+            if fl == len(hb) + 1:
+                add(f"sP sI (calculate_body_content_size {fl} (Buf.ofList {L(hb)}))", E(cbcs))
+    # --- header constructors
+    DH = importlib.import_module("sqlite_dissect.file.database.header")
+    WH = importlib.import_module("sqlite_dissect.file.wal.header")
+    JH = importlib.import_module("sqlite_dissect.file.journal.header")
+
+    def fields(obj, names):
+        out = []
+        for n in names:
+            v = getattr(obj, n)
+            out.append(L(bytes(v)) if isinstance(v, (bytes, bytearray)) else str(v))
+        return " ".join(out)
+
+    def valid_db_header():
+        import sqlite3
+        import tempfile
+        d = tempfile.mkdtemp()
+        pth = os.path.join(d, "t.db")
+        c = sqlite3.connect(pth)
+        c.execute("create table t(a)")
+        c.commit()
+        c.close()
+        return open(pth, "rb").read(100)
+
+    base = valid_db_header()
+    dbs = [base, b"", base[:99], base + b"\x00"]
+    for pos, vals in [(0, [0]), (16, [0, 1, 2, 3, 0x80]), (17, [1, 0xFF]), (18, [0, 3]), (19, [0, 3]), (20, [1]), (21, [0]),
+                      (22, [0]), (23, [0]), (47, [0, 5]), (59, [0, 4]), (55, [0, 1]), (67, [1]), (72, [1]), (91, [9]),
+                      (31, [7]), (95, [3])]:
+        for v in vals:
+            h = bytearray(base)
+            h[pos] = v
+            dbs.append(bytes(h))
+    h = bytearray(base); h[16:18] = b"\x00\x01"; dbs.append(bytes(h))
+    h = bytearray(base); h[44:48] = b"\0" * 4; h[56:60] = b"\0" * 4; dbs.append(bytes(h))
+    h = bytearray(base); h[52:56] = b"\0" * 4; h[64:68] = b"\0\0\0\1"; dbs.append(bytes(h))
+    for _ in range(25):
+        h = bytearray(base)
+        for _k in range(rng.randrange(1, 3)):
+            h[rng.randrange(100)] = rng.randrange(256)
+        dbs.append(bytes(h))
+    specs_by_cls = {}
+    texts, _f = render(repo)
+    for cls, names_re in [("DatabaseHeader", None), ("WriteAheadLogHeader", None), ("WriteAheadLogFrameHeader", None),
+                          ("RollbackJournalHeader", None)]:
+        m = re.search(r"structure %s where\n((?:  \S+ : .*\n)+)" % cls, texts[OUT_HEADER])
+        specs_by_cls[cls] = [ln.split(":")[0].strip() for ln in m.group(1).strip().split("\n")]
+
+    def lean_show(cls):
+        names = [n for n in specs_by_cls[cls] if n != "md5_hex_digest"]
+        parts = []
+        for n in names:
+            parts.append(f"sF r.{ident(n)}")
+        return "(fun r => " + " ++ \" \" ++ ".join(parts) + ")"
+
+    def run_cls(cls, pyc, data):
+        names = [n for n in specs_by_cls[cls] if n != "md5_hex_digest"]
+        add(f"sP {lean_show(cls)} (PyHeader.{cls}.init (Buf.ofList {L(data)}))", E(lambda: fields(pyc(data), names)))
+
+    for d_ in dbs:
+        run_cls("DatabaseHeader", DH.DatabaseHeader, d_)
+    walh = struct.pack(">8I", 0x377F0682, 3007000, 4096, 0, 1, 2, 3, 4)
+    wals = [walh, b"", walh[:31], walh + b"\0", struct.pack(">8I", 0x377F0683, 3007000, 512, 7, 1, 2, 3, 4),
+            struct.pack(">8I", 0x377F0684, 3007000, 512, 7, 1, 2, 3, 4), struct.pack(">8I", 0x377F0682, 3007001, 512, 0, 1, 2, 3, 4)]
+    wals += [bytes(rng.randrange(256) for _ in range(32)) for _ in range(5)]
+    for d_ in wals:
+        run_cls("WriteAheadLogHeader", WH.WriteAheadLogHeader, d_)
+    frs = [struct.pack(">6I", 5, 9, 1, 2, 3, 4), b"", b"\0" * 23, b"\xff" * 24, b"\0" * 25]
+    frs += [bytes(rng.randrange(256) for _ in range(24)) for _ in range(5)]
+    for d_ in frs:
+        run_cls("WriteAheadLogFrameHeader", WH.WriteAheadLogFrameHeader, d_)
+    jh = bytes([0xD9, 0xD5, 0x05, 0xF9, 0x20, 0xA1, 0x63, 0xD7]) + struct.pack(">5I", 3, 77, 10, 512, 1024)
+    jhs = [jh, b"", jh[:27], jh + b"\0", jh[:8] + b"\xff" * 4 + jh[12:], b"\0" * 8 + jh[8:]]
+    jhs += [bytes(rng.randrange(256) for _ in range(28)) for _ in range(5)]
+    for d_ in jhs:
+        run_cls("RollbackJournalHeader", JH.RollbackJournalHeader, d_)
     consts = _consts(repo)
     for spec in CELLS:
         f = _py_sliced_function(spec, repo, consts)
@@ -1334,9 +1918,19 @@ def selftest(seed=0, verbose=True):
                     E(lambda: "%d %s" % ((lambda r: (r[0], "true" if r[1] else "false"))(f(u, p)))))
     src = "\n".join([
         "import SqliteDissect.Generated.PyFun",
-        "open SqliteDissect SqliteDissect.Generated.PyFun",
+        "import SqliteDissect.Generated.PyHeader",
+        "open SqliteDissect SqliteDissect.Generated SqliteDissect.Generated.PyFun",
         "def sI (i : Int) : String := toString i",
         "def sL (l : List Nat) : String := \"[\" ++ \", \".intercalate (l.map toString) ++ \"]\"",
+        "def sV : PyVal → String",
+        "  | .none => \"none\"",
+        "  | .int i => \"int:\" ++ toString i",
+        "  | .float64 b => \"f64:\" ++ toString b",
+        "  | .bytes l => \"bytes:\" ++ sL l",
+        "class SF (α : Type) where sF : α → String",
+        "instance : SF Int := ⟨sI⟩",
+        "instance : SF (List Nat) := ⟨sL⟩",
+        "def sF {α : Type} [SF α] (a : α) : String := SF.sF a",
         "def sP {α : Type} (f : α → String) : Py α → String",
         "  | .ok a => \"ok \" ++ f a",
         "  | .error e => \"err \" ++ e.name",
@@ -1347,7 +1941,8 @@ def selftest(seed=0, verbose=True):
     with open(tmp, "w", encoding="utf-8") as fh:
         fh.write(src)
     try:
-        subprocess.run(["lake", "build", "SqliteDissect.Generated.PyFun"], cwd=LEAN, check=True,
+        subprocess.run(["lake", "build", "SqliteDissect.Generated.PyFun", "SqliteDissect.Generated.PyHeader"], cwd=LEAN,
+                       check=True,
                        stdout=subprocess.PIPE, stderr=subprocess.STDOUT)
         p = subprocess.run(["lake", "env", "lean", "--run", tmp], cwd=LEAN, stdout=subprocess.PIPE,
                            stderr=subprocess.STDOUT, text=True, timeout=3600)
@@ -1376,8 +1971,9 @@ if __name__ == "__main__":
     if "--selftest" in sys.argv:
         sys.exit(1 if selftest() else 0)
     elif "--print" in sys.argv:
-        t, fs = render()
-        sys.stdout.write(t)
+        ts, fs = render()
+        for t in ts.values():
+            sys.stdout.write(t)
         for f in fs:
             print("FAILED:", f, file=sys.stderr)
     else:
